@@ -468,6 +468,7 @@ class Interp:
             try: v = self.eval(ex, env)[0]
             except RefError as err:
                 err.loc = None        # position of an error inside a slot: not stated
+                err.in_slot = True    # (seed reports such an error as `<slot position>: <position inside the slot>: message`)
                 raise
             if v[0] != 'str': raise RefError('type-context', None, context='slot', exp='string', got=tname(v))
             if not any(is_sym(x) for x in v[1]):
